@@ -3,15 +3,23 @@ package main
 import (
 	"bytes"
 	"context"
+	"crypto/ecdsa"
+	"crypto/elliptic"
+	crand "crypto/rand"
+	"crypto/tls"
+	"crypto/x509"
+	"crypto/x509/pkix"
 	"encoding/json"
 	"fmt"
 	"io"
+	"math/big"
 	"math/rand"
 	"net"
 	"os"
 	"os/exec"
 	"path/filepath"
 	"regexp"
+	"runtime"
 	"runtime/pprof"
 	"sort"
 	"strconv"
@@ -94,6 +102,8 @@ type c17Scen struct {
 	Kind string `json:"kind"`
 	K    int    `json:"k"`
 	Seed int64  `json:"seed"`
+	// Rounds: close storms repeat their open + k-simultaneous-closes step this many times
+	Rounds int `json:"rounds,omitempty"`
 }
 
 var c17ScenKinds = []string{
@@ -101,6 +111,7 @@ var c17ScenKinds = []string{
 	"double-close-packetconn", "double-close-listener", "double-close-conn", "listener-close-pending-dials",
 	"ctx-cancel-mid-dial", "dial-unknown-service", "close-while-traffic", "listen-close-immediately",
 	"conn-close-during-read", "concurrent-close-conn", "shutdown-race",
+	"close-storm-listener", "close-storm-packetconn",
 }
 
 func c17RunScenario(m *mesh.Mesh, sc *c17Scen, progress string) string {
@@ -416,6 +427,53 @@ func c17RunScenario(m *mesh.Mesh, sc *c17Scen, progress string) string {
 				return "wedge: socket operations did not return after the node was shut down"
 			}
 		}
+	case "close-storm-listener", "close-storm-packetconn":
+		// k goroutines released by a spin barrier close the same object at the same instant, many times over:
+		// narrow check-then-act windows in Close only open when the calls really overlap
+		var stormTLS *tls.Config
+		if sc.Kind == "close-storm-listener" {
+			// a ready-made server certificate: Listen(svc, nil) generates an RSA key per call (~100 ms)
+			cfg, err := c17SelfSigned()
+			if err != nil {
+				return "setup: " + err.Error()
+			}
+			stormTLS = cfg
+		}
+		for r := 0; r < sc.Rounds; r++ {
+			var closeFn func()
+			if sc.Kind == "close-storm-listener" {
+				li, err := a.Listen(svc, stormTLS)
+				if err != nil {
+					return "setup: " + err.Error()
+				}
+				closeFn = func() { _ = li.Close() }
+			} else {
+				pc, err := a.ListenPacketAndAdvertise(svc, map[string]string{"x": "y"})
+				if err != nil {
+					return "setup: " + err.Error()
+				}
+				closeFn = func() { _ = pc.Close() }
+			}
+			var arrived atomic.Int32
+			var wg sync.WaitGroup
+			for i := 0; i < sc.K; i++ {
+				wg.Add(1)
+				go func() {
+					defer wg.Done()
+					arrived.Add(1)
+					for spins := 0; arrived.Load() < int32(sc.K); spins++ {
+						if spins > 5000 {
+							runtime.Gosched()
+						}
+					}
+					closeFn()
+				}()
+			}
+			if !within(bound, wg.Wait) {
+				return fmt.Sprintf("wedge: %d simultaneous Close calls did not all return (round %d)", sc.K, r)
+			}
+		}
+		appendLine(progress, fmt.Sprintf("NOTE %d storm-rounds=%d k=%d", sc.Idx, sc.Rounds, sc.K))
 	case "listen-close-immediately":
 		li, err := a.Listen(svc, nil)
 		if err != nil {
@@ -727,13 +785,13 @@ func c17RampChild(_ string, args []string) {
 
 func runC17(tier string, args []string) {
 	run := ev.New("C17", tier, "exploration")
-	run.Rule("part A: seeded close-race scenarios (k deliverers blocked on an unread listener at Close — local senders and a backend session —, Close during ReadFrom with/without deadline, concurrent/double Close of sockets, listeners, streams, listener closed with pending dials, context cancelled mid-dial, dial to unknown service, Close under traffic) in child processes; process death or a call that never returns (40 s) is a violation. part B: per operation kind, c/2c/4c cycles; listener-registry sizes and goroutine groups sampled at quiescent points (3 equal samples); growth >= 0.5 per cycle in both intervals = leak; receptor goroutines after Shutdown = violation. distinct_nontrivial = distinct (scenario kind, k) with >= 2 deliverers actually blocked or a concurrent close + ramp kinds measured")
+	run.Rule("part A: seeded close-race scenarios (k deliverers blocked on an unread listener at Close — local senders and a backend session —, Close during ReadFrom with/without deadline, concurrent/double Close of sockets, listeners, streams, close storms (thousands of rounds of k barrier-released simultaneous Close calls on a fresh listener / advertised socket), listener closed with pending dials, context cancelled mid-dial, dial to unknown service, Close under traffic) in child processes; process death or a call that never returns (40 s) is a violation. part B: per operation kind, c/2c/4c cycles; listener-registry sizes and goroutine groups sampled at quiescent points (3 equal samples); growth >= 0.5 per cycle in both intervals = leak; receptor goroutines after Shutdown = violation. distinct_nontrivial = distinct (scenario kind, k) with >= 2 deliverers actually blocked or a concurrent close + ramp kinds measured")
 	work := workDir()
 	rng := rand.New(rand.NewSource(run.Seed*179424673 + 17))
 	nScen := run.Pick(42, 600)
 	scs := []*c17Scen{}
 	for i := 0; i < nScen; i++ {
-		scs = append(scs, &c17Scen{Idx: i, Kind: c17ScenKinds[i%len(c17ScenKinds)], K: 2 + rng.Intn(5), Seed: rng.Int63()})
+		scs = append(scs, &c17Scen{Idx: i, Kind: c17ScenKinds[i%len(c17ScenKinds)], K: 2 + rng.Intn(5), Seed: rng.Int63(), Rounds: run.Pick(2500, 15000)})
 	}
 	var wg sync.WaitGroup
 	var mu sync.Mutex
@@ -803,6 +861,9 @@ func runC17(tier string, args []string) {
 							run.Violation("wedge:"+sc.Kind, fmt.Sprintf("scenario %d %s (k=%d): %s", sc.Idx, sc.Kind, sc.K, status), map[string]any{"scenario": sc, "output": keepOutput(outFile)})
 						} else if strings.HasPrefix(status, "setup") {
 							run.Inconclusive(fmt.Sprintf("C17 scenario %d %s: %s", sc.Idx, sc.Kind, status))
+						}
+						if strings.HasPrefix(sc.Kind, "close-storm") && status == "ok" {
+							run.Count("close_storm_rounds_completed", int64(sc.Rounds))
 						}
 						if sc.Kind == "blocked-deliverers-close" {
 							run.Count("deliverers_blocked_at_close", int64(blocked[idx]))
@@ -933,4 +994,19 @@ func keepOutput(outFile string) string {
 		_ = os.WriteFile(keep, data, 0o644)
 	}
 	return keep
+}
+
+// c17SelfSigned returns a server TLS configuration with a fresh self-signed ECDSA certificate.
+func c17SelfSigned() (*tls.Config, error) {
+	key, err := ecdsa.GenerateKey(elliptic.P256(), crand.Reader)
+	if err != nil {
+		return nil, err
+	}
+	tpl := &x509.Certificate{SerialNumber: big.NewInt(17), Subject: pkix.Name{CommonName: "c17"}, NotBefore: time.Now().Add(-time.Hour), NotAfter: time.Now().Add(24 * time.Hour),
+		KeyUsage: x509.KeyUsageDigitalSignature, ExtKeyUsage: []x509.ExtKeyUsage{x509.ExtKeyUsageServerAuth}, DNSNames: []string{"c17"}}
+	der, err := x509.CreateCertificate(crand.Reader, tpl, tpl, &key.PublicKey, key)
+	if err != nil {
+		return nil, err
+	}
+	return &tls.Config{Certificates: []tls.Certificate{{Certificate: [][]byte{der}, PrivateKey: key}}, NextProtos: []string{"netceptor"}, MinVersion: tls.VersionTLS12}, nil
 }
